@@ -521,3 +521,33 @@ CHECKS["C11"]["classes"] = CHECKS["C11"]["classes"] + ["zombie-run"]
 CHECKS["C11"]["lean_modules"] = CHECKS["C11"]["lean_modules"] + ["SycVerif.Props.C11Repairs"]
 CHECKS["C11"]["theorems"] += [RX + n for n in ["runNodeUpdate_eq_prefix_tail", "runNodeUpdate_eq_old", "C11_rerun_stops_eq", "C11_rerun_stops_when_disposed",
                                                 "C11_rerun_stops_when_disposed_reachable", "C11_rerun_owner_disposed_example", "C11_rerun_owner_disposed_no_panic", "C11_old_rerun_panics"]]
+
+# --- level notes brought in line with what is proved now (status / partial hold the details)
+CHECKS["C02"]["manifest_note"] = ("Clause (i) (no stale read) for edges that APPEAR during the propagation is FALSE on the code (known finding D1, class late-edge, "
+    "reported as KNOWN-FINDING, proved false in C01_full_false); without late edges it is part of the loop invariant of C01_dynamic_set_run "
+    "(a computation reads only computations that are not pending). Clause (ii) at most one run: C02_schedule_no_duplicates + C01. Clause (iii) "
+    "(runs only if something tracked was written / re-ran / changed): Props/C02Runs for branch-free and branching pure bodies. Bodies that write "
+    "signals are outside the property; bodies that create/dispose nodes are covered by the oracles and the correspondence only.")
+CHECKS["C03"]["manifest_note"] = ("Tracker discipline is proved for every body; every (re-)run links exactly the live tracked nodes (C04_link_exact) and drops the "
+    "previous subscriptions first (C04_rerun_unsubscribes); every reachable state of every program has a dangling-free symmetric subscription graph. "
+    "'Dependencies = tracked reads of the latest run' as a statement about states AT REST is a theorem for pure bodies (C01_dynamic_set); for bodies "
+    "that create/dispose nodes or write it is checked by the edges/missed-run/unjustified-run/stale-subscribers oracles on the cases run.")
+CHECKS["C04"]["manifest_note"] = ("Structural clauses (exactly the ownership subtree dies, survivors lose only dead ids, live count, idempotence, termination) hold in "
+    "every reachable state of every program (reachable_inv). Cleanups: exactly once, in order, untracked — proved for the whole subtree when cleanups "
+    "only read (disposeNode_spec), and for ARBITRARY cleanups for the cleanups registered on the disposed node itself together with 'the disposed node "
+    "never runs again' (Props/C04Repairs, repair D19). Exactly-once across the whole subtree with side-effecting cleanups is checked by the "
+    "cleanup-twice/cleanup-missing/zombie-run oracles and the correspondence.")
+CHECKS["C10"]["manifest_note"] = ("All three clauses are theorems over the model: nothing reacts inside a batch at any depth, an empty batch is a no-op, and at the end "
+    "of the outermost batch the multi-start propagation (duplicates in the queue, the mark reset of repair D13) ends consistent with each computation "
+    "run at most once and every direct dependent of a written signal run — for pure computations, write-only batch bodies and no late edge "
+    "(false with set_silent in the batch: batch_silent_counterexample). Batch bodies that create/dispose nodes and computations that write: oracle "
+    "and correspondence only.")
+CHECKS["C12"]["manifest_note"] = ("Sync, blocking and streaming renders are modelled (Model/Ssr for strings and keys of sync renders; Model/Assr for key creation order per "
+    "suspense scope, suspense keys, holes and fragments of blocking/streaming renders) and compared with the real render functions. Root::reinit and the "
+    "thread-local SSR root (what makes renders independent of history) are NOT modelled: isolation is established on the real code by rendering every "
+    "case twice with unrelated renders (finished, panicking, abandoned blocking renders) in between and comparing bytes, key multisets and the live node "
+    "count (hook node_count). use_stable_counter likewise by the real code only.")
+CHECKS["C13"]["manifest_note"] = ("Reactive-level clause: proved over the task/boundary machine for all trees and completion orders. SSR clauses: proved over Model/Assr "
+    "(blocking returns iff all tasks done; each boundary streamed once, after its parent; page assembled from fragments = blocking page). The "
+    "string-level splice performed by the inline client script is replayed by the harness (a model of the script), not proved. Executor behaviour "
+    "(tokio LocalSet, wake order) is assumed, see trusted base.")
